@@ -12,6 +12,7 @@ pub mod c07;
 pub mod c08;
 pub mod c09;
 pub mod c10;
+pub mod c11;
 pub mod c12;
 pub mod c13;
 pub mod c14;
@@ -43,6 +44,7 @@ pub fn lookup(id: &str) -> Option<PropDef> {
         "C08" => c08::def(),
         "C09" => c09::def(),
         "C10" => c10::def(),
+        "C11" => c11::def(),
         "C12" => c12::def(),
         "C13" => c13::def(),
         "C14" => c14::def(),
